@@ -194,12 +194,17 @@ class Interp:
             elif isinstance(obj, (Resources, Capacities)):
                 snap[name] = dict(obj.levels)
         for name, task in self.ctx.tasks.items():
-            snap['done:' + name] = bool(task.done)
+            # (from the status, not from the `done` condition itself: the condition is what is being judged)
+            snap['done:' + name] = task.status.name in ('SUCCESS', 'FAILED', 'CANCELLED')
         return snap
 
     # -- flags / tracked -------------------------------------------------------------------------
     async def op_SET(self, act, pc, f, v=True):
         await self.ctx.objs[f].set(v)
+
+    async def op_NSET(self, act, pc, f, v=True):
+        """set the flag through its inverse: (~flag).set(v)"""
+        await (~self.ctx.objs[f]).set(v)
 
     async def op_TSET(self, act, pc, x, v):
         await self.ctx.objs[x].set(v)
